@@ -168,6 +168,53 @@ def handleAbs (env : Env) (j : Json) : Json :=
   | .ok (t, p) => Json.mkObj [("r", t.show ++ "|" ++ p.name)]
   | .error e => Json.mkObj [("e", errName e)]
 
+/-! ## search layer ops (`DPModel/DP/Search.lean`) -/
+
+def jarr (j : Json) : List Json := match j with | .arr a => a.toList | _ => []
+def jtable (j : Json) : Std.HashMap String String :=
+  (jarr j).foldl (fun m x => match jarr x with | [.str k, .str v] => m.insert k v | _ => m) {}
+def jflags (j : Json) : Std.HashMap String Bool :=
+  (jarr j).foldl (fun m x => match jarr x with | [.str k, .bool v] => m.insert k v | _ => m) {}
+def errJson (e : PyErr) : Json := Json.mkObj [("e", e.kind)]
+
+/-- `_simplify_split_align` on (raw, normalised) original tokens and simplified tokens -/
+def handleAlign (j : Json) : Json :=
+  let orig : List Search.OTok := (jarr (jget j "orig")).filterMap (fun x => match jarr x with | [.str r, .str n] => some ⟨r, n⟩ | _ => none)
+  match Search.alignTokens orig (strList (jget j "simp")) with
+  | .ok (o, s) => Json.mkObj [("o", Json.arr (o.map (fun t => Json.str t.raw)).toArray), ("s", Json.arr (s.map Json.str).toArray)]
+  | .error e => errJson e
+
+/-- the `translate_search` loop on one sentence; dictionary / join / strip / digit / tz behaviour are tables recorded from the library -/
+def handleTsent (j : Json) : Json :=
+  let dict := jtable (jget j "dict")
+  let joins := jtable (jget j "join")            -- key: the two strings separated by U+0001
+  let strips := jtable (jget j "strip")
+  let digits := jflags (jget j "digits")
+  let tz := jflags (jget j "tz")
+  let E : Search.Env :=
+    { dict := fun w => dict.get? w, join := fun ws => (joins.get? ("\x01".intercalate ws)).getD "\x02missing-join",
+      strip := fun w => (strips.get? w).getD w, digitsOk := fun w => (digits.get? w).getD false, isTz := fun w => (tz.get? w).getD false,
+      jointUnsupported := jbool j "jointUnsupported" false }
+  match Search.sentenceChunks E (strList (jget j "orig")) (strList (jget j "simp")) with
+  | .ok cs => Json.mkObj [("chunks", Json.arr (cs.map (fun c => Json.arr (c.map (fun it =>
+      Json.arr #[Json.str it.t, Json.str it.o, Json.num it.i, Json.num it.n])).toArray)).toArray)]
+  | .error e => errJson e
+
+/-- `parse_found_objects` + the blank filter; `gdd` is the table of calls the library made: [rb id | null, item, result id | null] -/
+def handleFound (j : Json) : Json :=
+  let chars := fun (x : Json) => (strList x).map String.toList
+  let key := fun (rb : Search.DateId) (item : List Char) => (match rb with | some n => toString n | none => "-") ++ "|" ++ String.ofList item
+  let tbl : Std.HashMap String Search.DateId := (jarr (jget j "gdd")).foldl (fun m x =>
+    match jarr x with
+    | [rb, .str item, r] => m.insert (key (rb.getNat?.toOption) item.toList) (r.getNat?.toOption)
+    | _ => m) {}
+  let F : Search.FEnv := { gdd := fun rb item => (tbl.get? (key rb item)).getD none, needRb := jbool j "needRb" true,
+                           hasDigit := fun s => s.any isDecDigit }
+  match Search.parseFound F (chars (jget j "toParse")) (chars (jget j "original")) (chars (jget j "translated")) ((jget j "rb0").getNat?.toOption) with
+  | .ok hits => Json.mkObj [("hits", Json.arr (hits.map (fun h =>
+      Json.arr #[Json.str (String.ofList h.sub), (match h.date with | some n => Json.num n | none => Json.null), Json.num h.ci, Json.num h.pj])).toArray)]
+  | .error e => errJson e
+
 def handle (env : Env) (cache : IO.Ref Cache) (line : String) : IO String := do
   match Json.parse line with
   | .error e => return Json.compress (Json.mkObj [("bad", "json:" ++ e)])
@@ -185,6 +232,9 @@ def handle (env : Env) (cache : IO.Ref Cache) (line : String) : IO String := do
             let s := jstr j "s"
             if s.toList.any (fun c => !inAlphabet c) then pure (Json.mkObj [("bad", "alphabet")]) else
             pure (Json.mkObj [("r", le.L.translate s (jbool j "keep" false)), ("app", Json.bool (le.L.isApplicable s))])
+      | "align" => pure (handleAlign j)
+      | "tsent" => pure (handleTsent j)
+      | "found" => pure (handleFound j)
       | "sanitize" => pure (Json.mkObj [("r", sanitizeDate (jstr j "s"))])
       | "poptz" => pure (let r := popTz env.T (jstr j "s"); Json.mkObj [("r", r.1), ("tz", match r.2 with | some (n, o) => Json.mkObj [("name", n), ("off", Json.num o)] | none => Json.null)])
       | _ => pure (Json.mkObj [("bad", "op")])
